@@ -29,7 +29,14 @@ RULE = ("merge: every multiset of <= 3 (quick) / <= 4 (thorough) of the 36 inter
         "with inner features on another seqid / strand / type, under the default criteria, exact_coordinates_only, custom and "
         "random criteria, through merge() and merge_all (no ties on the merge order, every criterion); merge_criteria handed "
         "over as list, tuple, set, generator expression, iter(list), itertools.chain or (one criterion) the bare callable, to "
-        "merge(), merge_all() and children_bp(). non-trivial = the model has >= 1 multi-member "
+        "merge(), merge_all() and children_bp(); inputs in which 1..3 features occur two or three times IDENTICAL in all nine "
+        "columns and attributes (Feature objects; database lines without ID, which receive generated ids; lines repeating an ID "
+        "loaded with merge_strategy='create_unique'), each copy an input of its own, through merge() (partition by object "
+        "identity and by feature id), merge_all() (a relation / a deletion for each copy) and children_bp(); merge_criteria as "
+        "an EMPTY list / tuple (no criterion: one run over the whole input) through merge(), children_bp(merge=True) and "
+        "merge_all() on one gapped gene/transcript/exon database, compared with the model and with each other; merge_all with "
+        "2..3 featuretype groups that each hold runs of their own, under criteria that differ from the default ones in effect, "
+        "handed over as list, tuple, set or single callable. non-trivial = the model has >= 1 multi-member "
         "run and >= 1 singleton; distinct = distinct (features, criteria, follow-up) tuples")
 REQUIRED = ["merge calls", "outputs mapped to inputs by identity", "multi-member runs compared", "singleton outputs compared",
             "position-set union comparisons (default criteria)", "merged ids checked", "calls yielding >= 2 merged outputs",
@@ -51,10 +58,41 @@ REQUIRED = ["merge calls", "outputs mapped to inputs by identity", "multi-member
             "rejected inside the run's extent by: strand", "rejected inside the run's extent by: seqid",
             "rejected inside the run's extent by: feature_type", "rejected inside the run's extent by: exact_coordinates_only",
             "rejected inside the run's extent by: a custom criterion",
-            "merge_all: rejected features lying inside the current run's extent"]
+            "merge_all: rejected features lying inside the current run's extent",
+            "partitions compared by feature id",
+            "merge calls on inputs holding features identical in all columns and attributes",
+            "merge calls on inputs holding identical features read from a database",
+            "identical neighbours (all columns and attributes) that are children of the same output",
+            "identical neighbours (all columns and attributes) that end up in different outputs",
+            "merge_all: identical features (all columns and attributes) that are members of runs: each deleted",
+            "merge_all: identical features (all columns and attributes) that are members of runs: each related to the new feature at level 1",
+            "children_bp calls over children holding features identical in all columns and attributes: merge=False",
+            "children_bp calls over children holding features identical in all columns and attributes: merge=True",
+            "merge: EMPTY merge_criteria passed as list", "merge: EMPTY merge_criteria passed as tuple",
+            "merge_all: EMPTY merge_criteria passed as list", "merge_all: EMPTY merge_criteria passed as tuple",
+            "children_bp: EMPTY merge_criteria passed as list", "children_bp: EMPTY merge_criteria passed as tuple",
+            "empty merge_criteria: inputs that fall into several runs under the default criteria",
+            "empty merge_criteria: merge() calls compared with the one-run model",
+            "empty merge_criteria: children_bp(merge=True) calls compared with the one-run model",
+            "empty merge_criteria: merge_all() calls compared with the one-run model",
+            "empty merge_criteria: children_bp(merge=True) compared with the lengths of merge()'s outputs",
+            "empty merge_criteria: merge_all()'s new features compared with merge()'s outputs",
+            "merge_all calls with several featuretype groups: merge_criteria passed as list",
+            "merge_all calls with several featuretype groups: merge_criteria passed as tuple",
+            "merge_all calls with several featuretype groups: merge_criteria passed as set",
+            "merge_all calls with several featuretype groups: merge_criteria passed as callable",
+            "merge_all: featuretype groups after the first holding multi-member runs",
+            "merge_all: groups after the first whose runs differ from the default ones, merge_criteria passed as list",
+            "merge_all: groups after the first whose runs differ from the default ones, merge_criteria passed as tuple",
+            "merge_all: groups after the first whose runs differ from the default ones, merge_criteria passed as set",
+            "merge_all: groups after the first whose runs differ from the default ones, merge_criteria passed as callable"]
 REQUIRED_CLASSES = ["merge/exhaustive uniform default", "merge/exhaustive grouped default", "merge/exhaustive criteria",
                     "merge/random objects", "merge/random db", "merge_all/keep", "merge_all/exclude", "children_bp",
-                    "merge/shaped objects", "merge/shaped db", "merge_all/shaped keep", "merge_all/shaped exclude"]
+                    "merge/shaped objects", "merge/shaped db", "merge_all/shaped keep", "merge_all/shaped exclude",
+                    "merge/identical features objects", "merge/identical features db", "merge_all/identical features keep",
+                    "merge_all/identical features exclude", "children_bp/identical features", "empty criteria/list",
+                    "empty criteria/tuple", "merge_all/several groups, criteria as list", "merge_all/several groups, criteria as tuple",
+                    "merge_all/several groups, criteria as set", "merge_all/several groups, criteria as callable"]
 ASSUMPTIONS = [
     "the shipped criteria carry no documentation beyond their names; the model re-states them as 'cur begins inside the run "
     "or within `reach` bases after it' / 'cur ends inside the run or within `reach` bases before it', with "
@@ -72,6 +110,13 @@ ASSUMPTIONS = [
     "order a set yields them in cannot matter; a one-shot iterator is handed to merge_all only with a single featuretype "
     "group (whether one iterator can serve several groups is not stated: such a combination is skipped and counted)",
     "the `multiline` argument of merge() is never passed (its semantics are not stated)",
+    "features that agree in every column and attribute are still distinct inputs (distinct objects, distinct database ids); "
+    "lines without ID / with a repeated ID (merge_strategy='create_unique') are stored in file order under ids of their own "
+    "(checked column by column, else the case is a harness error); such inputs reach merge_all only with tie-insensitive criteria",
+    "an empty merge_criteria list / tuple means 'no criterion': all([]) accepts every pair, so one run covers the whole input "
+    "(per featuretype group in merge_all)",
+    "merge_all with several featuretype groups: the groups are disjoint and no merged feature of an earlier group has a "
+    "featuretype of a later group; a re-iterable merge_criteria (list, tuple, set, one callable) applies to every group alike",
 ]
 EXHAUSTIVE_NOTE = ("all multisets of <= 3 (quick) or <= 4 (thorough) intervals over 8 positions, both tie orders, are executed "
                    "with uniform labels under the default criteria; labellings and other criteria are sampled")
@@ -1115,6 +1160,11 @@ MANIFEST = {
             "detached from their predecessor; on the same or another seqid / strand / type) so that absorption by the run's extent "
             "and rejection inside the extent are frequent, through merge() and merge_all(); merge_criteria is handed over as list, "
             "tuple, set, generator, iterator, chain or bare callable to merge(), merge_all() and children_bp(). "
+            "Further classes: inputs holding features identical in all nine columns and attributes (objects, id-less lines, "
+            "repeated IDs under create_unique), each copy an input of its own in the partition (by identity and by id), in "
+            "merge_all's relations / deletions and in children_bp; an EMPTY merge_criteria list / tuple (one run over everything) "
+            "through merge(), children_bp(merge=True) and merge_all() on the same database, compared with each other; merge_all "
+            "over several featuretype groups under non-default criteria given as list, tuple, set or one callable. "
             "Held = no executed case disagreed.",
     "note": "Trusted: gvmon/models/c16_merge.py (its reading of the undocumented criteria names), create_db. Not asserted: "
             "bin / attributes / source / seqid / strand / type of in-memory merged outputs under non-default criteria, output "
